@@ -223,7 +223,6 @@ theorem step_sim {cfg : Config} {L n Li : Nat} (hcfg : CfgOk cfg L n Li) (dc : I
         simp only [hld, hbytes]
         simp only [hbytes] at hsok
         have hrun := run_mem i a.ctx mem2 app.labels a.pc bytes 0#32
-        simp only [] at hrun
         simp only [hrun]
         have hsim2 : Sim L n Li ⟨⟨{ a.ctx with Memory := mem2 }, a.pc⟩, u2⟩ a :=
           { pc := rfl, ctx := rfl, dwf := hdwf2, coh := hcoh2, iwf := by rw [hi2]; exact hfi }
@@ -249,12 +248,12 @@ theorem step_sim {cfg : Config} {L n Li : Nat} (hcfg : CfgOk cfg L n Li) (dc : I
             by_cases h7 : e.Return = true
             · simp only [h7, if_true, StepRel]
               exact ⟨trivial, hsim2, Or.inr ⟨hfc, rfl, rfl, hmr0.1, hmr0.2, Int.le_refl 0, hmem⟩⟩
-            · simp only [h7, if_false]
+            · simp only [h7]
               by_cases h8 : e.RegisterChange = true
               · simp only [h8, if_true, StepRel]
                 refine ⟨?_, hfc, rfl, rfl, hmr0.1, hmr0.2, reg_nonneg, reg_le_mem⟩
                 exact { pc := rfl, ctx := rfl, dwf := hdwf2, coh := hcoh2, iwf := by rw [hi2]; exact hfi }
-              · simp only [h8, if_false]
+              · simp only [h8]
                 by_cases h9 : e.MemoryChange = true
                 · simp only [h9, if_true]
                   have h7' : e.Return = false := by simpa using h7
@@ -274,8 +273,9 @@ theorem step_sim {cfg : Config} {L n Li : Nat} (hcfg : CfgOk cfg L n Li) (dc : I
                   · rcases hwb with h | h <;> rw [h]
                     · exact Proofs.Seq.l1_le_mem
                     · exact Int.le_refl _
-                · simp only [h9, if_false, StepRel]
-                  exact ⟨hsim2, hfc, rfl, rfl, hmr0.1, hmr0.2, Int.le_refl 0, hmem⟩
+                · simp only [h9, StepRel]
+                  exact ⟨{ pc := rfl, ctx := rfl, dwf := hdwf2, coh := hcoh2, iwf := by rw [hi2]; exact hfi },
+                    hfc, rfl, rfl, hmr0.1, hmr0.2, Int.le_refl 0, hmem⟩
   · simp only [h1, not_false_eq_true, if_true, StepRel]
     exact ⟨trivial, { pc := rfl, ctx := rfl, dwf := hdwf, coh := hcoh, iwf := hiwf }, Or.inl trivial⟩
 
